@@ -78,7 +78,7 @@ func (g *G) declareLocal(t *Type) {
 	}
 	v := g.newLocal(t)
 	// shadow an outer variable's name now and then (never one from the same block)
-	if g.r.Chance(1, 6) {
+	if g.r.Chance(1, 4) {
 		outer := g.scope
 		if len(g.marks) > 0 {
 			outer = g.scope[:g.marks[len(g.marks)-1]]
@@ -96,6 +96,18 @@ func (g *G) declareLocal(t *Type) {
 		}
 		if len(cands) > 0 {
 			v.Name = core.Pick(g.r, cands).Name
+			// prefer a name that is already shadowed once: three and more declarations of one name in nested blocks
+			seen := map[string]int{}
+			var deep []*Var
+			for _, o := range cands {
+				seen[o.Name]++
+				if seen[o.Name] == 2 {
+					deep = append(deep, o)
+				}
+			}
+			if len(deep) > 0 && g.r.Chance(2, 3) {
+				v.Name = core.Pick(g.r, deep).Name
+			}
 		}
 	}
 	init, initConst := g.expr(t, exprDepth)
@@ -326,7 +338,7 @@ func (g *G) lvalue() (lv string, t *Type, guard string, ok bool) {
 			if v.T.Elem.IsScalar() {
 				save := g.noCalls
 				g.noCalls = true
-				k, _ := g.leaf(v.T.Key)
+				k := g.keyLeaf(v.T.Key)
 				g.noCalls = save
 				cs = append(cs, cand{s: name + "[" + k + "]", t: v.T.Elem})
 			}
@@ -892,7 +904,7 @@ func (g *G) mapStmt() {
 	name := g.ref(m)
 	save := g.noCalls
 	g.noCalls = true
-	k, _ := g.leaf(m.T.Key)
+	k := g.keyLeaf(m.T.Key)
 	g.noCalls = save
 	g.use("fmt")
 	switch g.r.Intn(6) {
@@ -985,6 +997,24 @@ func (g *G) structStmt() {
 	}
 	// pointer-typed field: link / follow under a nil guard
 	for _, f := range p.T.S.Fields {
+		if f.T.K == KPtr && !g.curPure && g.r.Chance(1, 3) {
+			// a method that guards its receiver is called on a reference that may be nil
+			for _, m := range f.T.S.Methods {
+				if !m.NilSafe {
+					continue
+				}
+				if args, ok := g.simpleArgs(m.Params); ok {
+					var ls []string
+					for range m.Results {
+						ls = append(ls, g.name("r"))
+					}
+					g.use("fmt")
+					g.line("%s := %s.%s.%s(%s)", strings.Join(ls, ", "), name, f.Name, m.Name, args)
+					g.line("fmt.Println(%q, %s)", g.name("n"), strings.Join(ls, ", "))
+					return
+				}
+			}
+		}
 		if f.T.K == KPtr && g.r.Chance(1, 2) && !g.curPure {
 			if g.r.Bool() {
 				g.line("%s.%s = %s", name, f.Name, g.structLit(f.T.S, 0))
